@@ -220,6 +220,9 @@ type binRL struct {
 	Period   time.Duration
 	Duration time.Duration
 	BOCount  int
+	// DualStack binds the plain-DNS server to [::]:port: IPv4 clients then
+	// arrive in the IPv4-mapped form.
+	DualStack bool
 }
 
 func binConfig(fx *binFixtures, rl binRL, dnsPort, dotPort int) string {
@@ -370,7 +373,7 @@ server_groups:
         protocol: 'dns'
         linked_ip_enabled: false
         bind_addresses:
-          - '127.0.0.1:%d'
+          - '%s:%d'
       - name: 'c09_dot'
         protocol: 'tls'
         linked_ip_enabled: false
@@ -386,7 +389,7 @@ network:
     so_sndbuf: 0
     so_rcvbuf: 0
 `, rl.Count, rl.Interval, rl.Count, rl.Interval, rl.Period, rl.BOCount, rl.Duration,
-		fx.upstream, fx.upstream, fx.cert, fx.key, dnsPort, dotPort, fx.upstream, fx.probe6) + "# " + page + "\n"
+		fx.upstream, fx.upstream, fx.cert, fx.key, map[bool]string{false: "127.0.0.1", true: "[::]"}[rl.DualStack], dnsPort, dotPort, fx.upstream, fx.probe6) + "# " + page + "\n"
 }
 
 func binEnv(fx *binFixtures, dir string, debugPort int) []string {
@@ -434,6 +437,17 @@ func freePorts(n int) (ports []int, err error) {
 			continue
 		}
 		_ = u.Close()
+		// also free on the IPv6 wildcard (a dual-stack bind needs both)
+		l6, l6err := net.Listen("tcp", "[::]:"+strconv.Itoa(p))
+		if l6err != nil {
+			continue
+		}
+		_ = l6.Close()
+		u6, u6err := net.ListenPacket("udp", "[::]:"+strconv.Itoa(p))
+		if u6err != nil {
+			continue
+		}
+		_ = u6.Close()
 		ports = append(ports, p)
 	}
 	if len(ports) < n {
@@ -696,7 +710,8 @@ func layer4Binary(r *vkit.Run) (wait func()) {
 			// backoff_period < backoff_duration (as in config.dist.yaml: 10m / 30m)
 			{Count: 2, Interval: 500 * time.Millisecond, Period: time.Second, Duration: 3 * time.Second, BOCount: 2},
 			// backoff_period > backoff_duration
-			{Count: 2, Interval: 500 * time.Millisecond, Period: 3 * time.Second, Duration: time.Second, BOCount: 2},
+			// (bound to [::]: the IPv4 clients arrive as ::ffff:127.9.x.y)
+			{Count: 2, Interval: 500 * time.Millisecond, Period: 3 * time.Second, Duration: time.Second, BOCount: 2, DualStack: true},
 		} {
 			wg2.Add(1)
 			go func() {
@@ -729,6 +744,9 @@ func binaryCase(r *vkit.Run, bin string, fx *binFixtures, dir string, idx int, r
 		Period: rl.Period, Duration: rl.Duration, Count: uint(rl.BOCount), Est: 1024, RefuseANY: true}
 	m := newMon(r, "binary", idx, c)
 	m.keyPrefix = "binary:"
+	if rl.DualStack {
+		m.keyPrefix = "binary:dualstack:"
+	}
 	lim := &binLimiter{c: child, clients: map[netip.Addr]*binClient{}, dropped: base}
 	lim.lost = func(why string) {
 		m.step = true
